@@ -119,6 +119,22 @@ Theorem C31_ok_only_if_applied :
 Proof. exact ok_only_if_applied. Qed.
 Print Assumptions C31_ok_only_if_applied.
 
+(* the handle table of a session: in every reachable state a new handle name is fresh, and a live
+   handle keeps naming the file it was opened on whatever else is opened or closed meanwhile - so an
+   FSETSTAT through it reaches that file (sessions have separate tables) *)
+Theorem C31_handle_fresh :
+  forall ops fid, let t := fold_left ht_step ops ht_new in
+  ht_lookup t (ht_next t) = None /\ ht_lookup (ht_open t fid) (ht_next t) = Some fid.
+Proof. exact handle_fresh_reachable. Qed.
+Print Assumptions C31_handle_fresh.
+
+Theorem C31_handle_stable :
+  forall ops0 ops h fid, let t := fold_left ht_step ops0 ht_new in
+  ht_lookup t h = Some fid -> ~ In (HClose h) ops ->
+  ht_lookup (fold_left ht_step ops t) h = Some fid.
+Proof. exact handle_stable_reachable. Qed.
+Print Assumptions C31_handle_stable.
+
 (* tie to the source: the flag bits and the list of steps (flag tested, call made, order, open mode
    of the resize) regenerated from paramiko's AST on this run are the ones modelled *)
 Theorem C31_source_steps : gen_steps = modelled_steps.
